@@ -17,7 +17,8 @@ func init() {
 		c19Protocol(c)           // C07.5: Refresh re-arms on every path (shared with C19.1)
 		c19Cancelled(c, "C07.9") // a cancelled deadline does not fire, a Refresh does not revive it
 		v3BinaryPayloadCodec(c, "C07.11", true)
-		c03CloseEpilogue(c)      // C07.6: both timers are cleared before the close event (C03.3)
+		c19RefreshOnlyLive(c, "C07.12")
+		c03CloseEpilogue(c) // C07.6: both timers are cleared before the close event (C03.3)
 		c07ClearTransport(c)
 		c19WhoClears(c) // C07.7: nobody else cancels the heartbeat timers
 		c19HolderWrites(c, "C07.8")
@@ -176,7 +177,7 @@ func pingBody(c *core.Ctx, R string) {
 
 func c07BranchEffects(c *core.Ctx) {
 	const R = "C07.3"
-	c.Rule(R, "branch-effect table in onPacket: PONG = {ClearTimeout(pingTimeoutTimer), pingIntervalTimer.Refresh(), Emit(heartbeat)} and no send; PING = {pingTimeoutTimer.Refresh(), sendPacket(PONG), Emit(heartbeat)}; each wrong-direction edge = {onError(invalid heartbeat direction), return} with no timer, send or heartbeat effect")
+	c.Rule(R, "branch-effect table in onPacket: PONG = {ClearTimeout(pingTimeoutTimer), pingIntervalTimer.Refresh(), Emit(heartbeat)} and no send; PING = {resetPingTimeout() — a new deadline: the pending one may have been cancelled by a transport upgrade, and a cancelled timer cannot be refreshed —, sendPacket(PONG), Emit(heartbeat)}; each wrong-direction edge = {onError(invalid heartbeat direction), return} with no timer, send or heartbeat effect")
 	u := c.Fn(R, sockOnPacket)
 	if u == nil {
 		return
@@ -196,6 +197,8 @@ func c07BranchEffects(c *core.Ctx) {
 			effs = append(effs, eff{cl, "Clear(" + timerHolder(info, cl.Arg(0)) + ")"})
 		case cl.Key == "utils.(*Timer).Refresh":
 			effs = append(effs, eff{cl, "Refresh(" + timerHolder(info, u.Resolve(cl.Recv)) + ")"})
+		case cl.Key == "engine.(*socket).resetPingTimeout":
+			effs = append(effs, eff{cl, "rearm(pingTimeout)"})
 		case cl.Key == sockSendPkt:
 			t, _ := core.ConstString(info, cl.Arg(0))
 			effs = append(effs, eff{cl, "send(" + t + ")"})
@@ -225,7 +228,7 @@ func c07BranchEffects(c *core.Ctx) {
 	}
 	pingOK, pingErr := branch(isPing, protocolIs3(true))
 	pongOK, pongErr := branch(isPong, protocolIs3(false))
-	c.Check(R, sockOnPacket+"/PING-effects", u.Pos(), strings.Join(pingOK, ",") == "Refresh(socket.pingTimeoutTimer),emit(heartbeat),send(pong)", keyf("right-direction PING edge: %v", pingOK))
+	c.Check(R, sockOnPacket+"/PING-effects", u.Pos(), strings.Join(pingOK, ",") == "emit(heartbeat),rearm(pingTimeout),send(pong)", keyf("right-direction PING edge: %v", pingOK))
 	c.Check(R, sockOnPacket+"/PONG-effects", u.Pos(), strings.Join(pongOK, ",") == "Clear(socket.pingTimeoutTimer),Refresh(socket.pingIntervalTimer),emit(heartbeat)", keyf("right-direction PONG edge: %v", pongOK))
 	c.Check(R, sockOnPacket+"/PING-wrong-direction", u.Pos(), strings.Join(pingErr, ",") == "onError", keyf("wrong-direction PING edge: %v", pingErr))
 	c.Check(R, sockOnPacket+"/PONG-wrong-direction", u.Pos(), strings.Join(pongErr, ",") == "onError", keyf("wrong-direction PONG edge: %v", pongErr))
